@@ -128,21 +128,21 @@ SPECS = {}
 
 # --- expiring-key tree -------------------------------------------------------
 SPECS["C01"] = {
-    "quick": [K("ktree", 2, 2, KA + ",o_pred", quq=1, cs=1), K("ktree", 3, 2, KA + ",o_pred", quq=1, tail2=2), K("ktree", 2, 2, KA + ",o_pred", quq=1, tail2=1), K("ktree", 2, 2, KA + ",o_pred", quq=2), K("ktree", 3, 2, KA + ",o_pred", quq=1), K("ktree", 2, 2, KA + ",o_pred", deep=3), K("ktree", 3, 1, KA + ",o_pred", deep=2), K("ktree", 3, 3, KA + ",o_pred", audit=1), K("ktree", 3, 3, KA + ",o_pred", tbase=252), K("ktree", 5, 1, "fleby,clear,o_pred"), F("ktree", "fl,fle,fleby,get,o_pred"), K("ktree", 3, 3, KA + ",o_pred", tbase=251), K("ktree", 4, 3, KA + ",o_pred"), K("ktree", 3, 3, KA + ",o_pred"), K("ktree", 3, 2, KA + ",o_pred", mode="full"), K("ktree", 8, 0, "fleby,clear,o_pred", mode="shape", label="ktree N=8 T=0 shape (arena growth)")],
-    "thorough": [K("ktree", 2, 2, KA + ",o_pred", quq=1, cs=1), K("ktree", 3, 1, KA + ",o_pred", quq=2, tail2=2), K("ktree", 3, 2, KA + ",o_pred", quq=2, tail2=2, cap_s=1500), K("ktree", 3, 2, KA + ",o_pred", quq=1, tail2=2), K("ktree", 2, 2, KA + ",o_pred", quq=1, tail2=1), K("ktree", 3, 2, KA + ",o_pred", quq=2), K("ktree", 2, 2, KA + ",o_pred", quq=2), K("ktree", 3, 2, KA + ",o_pred", quq=1), K("ktree", 3, 2, KA + ",o_pred", deep=2), K("ktree", 2, 2, KA + ",o_pred", deep=3), K("ktree", 3, 1, KA + ",o_pred", deep=2), K("ktree", 3, 3, KA + ",o_pred", audit=1), K("ktree", 3, 3, KA + ",o_pred", tbase=252), K("ktree", 5, 1, "fleby,clear,o_pred"), F("ktree", "fl,fle,fleby,get,o_pred"), K("ktree", 4, 4, KA + ",o_pred"), K("ktree", 5, 2, KA + ",o_pred", cap_s=900), K("ktree", 3, 3, KA + ",o_pred", mode="full"),
+    "quick": [SW("bigk", sys="ktree", label="bigk ktree<u32 keys>: 864 long histories on expiring trees of 127 ... 4000 entries, hints 0/8/9/128/256/1000: three insert waves through expired never-queried entries, re-insertion, every lookup, export"), K("ktree", 2, 2, KA + ",o_pred", quq=1, cs=1), K("ktree", 3, 2, KA + ",o_pred", quq=1, tail2=2), K("ktree", 2, 2, KA + ",o_pred", quq=1, tail2=1), K("ktree", 2, 2, KA + ",o_pred", quq=2), K("ktree", 3, 2, KA + ",o_pred", quq=1), K("ktree", 2, 2, KA + ",o_pred", deep=3), K("ktree", 3, 1, KA + ",o_pred", deep=2), K("ktree", 3, 3, KA + ",o_pred", audit=1), K("ktree", 3, 3, KA + ",o_pred", tbase=252), K("ktree", 5, 1, "fleby,clear,o_pred"), F("ktree", "fl,fle,fleby,get,o_pred"), K("ktree", 3, 3, KA + ",o_pred", tbase=251), K("ktree", 4, 3, KA + ",o_pred"), K("ktree", 3, 3, KA + ",o_pred"), K("ktree", 3, 2, KA + ",o_pred", mode="full"), K("ktree", 8, 0, "fleby,clear,o_pred", mode="shape", label="ktree N=8 T=0 shape (arena growth)")],
+    "thorough": [SW("bigk", sys="ktree", label="bigk ktree<u32 keys>: 864 long histories on expiring trees of 127 ... 4000 entries, hints 0/8/9/128/256/1000: three insert waves through expired never-queried entries, re-insertion, every lookup, export"), K("ktree", 2, 2, KA + ",o_pred", quq=1, cs=1), K("ktree", 3, 1, KA + ",o_pred", quq=2, tail2=2), K("ktree", 3, 2, KA + ",o_pred", quq=2, tail2=2, cap_s=1500), K("ktree", 3, 2, KA + ",o_pred", quq=1, tail2=2), K("ktree", 2, 2, KA + ",o_pred", quq=1, tail2=1), K("ktree", 3, 2, KA + ",o_pred", quq=2), K("ktree", 2, 2, KA + ",o_pred", quq=2), K("ktree", 3, 2, KA + ",o_pred", quq=1), K("ktree", 3, 2, KA + ",o_pred", deep=2), K("ktree", 2, 2, KA + ",o_pred", deep=3), K("ktree", 3, 1, KA + ",o_pred", deep=2), K("ktree", 3, 3, KA + ",o_pred", audit=1), K("ktree", 3, 3, KA + ",o_pred", tbase=252), K("ktree", 5, 1, "fleby,clear,o_pred"), F("ktree", "fl,fle,fleby,get,o_pred"), K("ktree", 4, 4, KA + ",o_pred"), K("ktree", 5, 2, KA + ",o_pred", cap_s=900), K("ktree", 3, 3, KA + ",o_pred", mode="full"),
                  K("ktree", 8, 1, "fle,fleby,clear,o_pred", mode="shape", cap_s=900), K("ktree", 4, 3, KA + ",o_pred", hint=9)],
 }
 SPECS["C06"] = {
-    "quick": [K("ktree", 2, 2, KA + ",o_get", quq=1, cs=1), K("ktree", 3, 2, KA + ",o_get", quq=1, tail2=2), K("ktree", 2, 2, KA + ",o_get", quq=1, tail2=1), K("ktree", 2, 2, KA + ",o_get", quq=2), K("ktree", 3, 2, KA + ",o_get", quq=1), K("ktree", 2, 2, KA + ",o_get", deep=3), K("ktree", 3, 1, KA + ",o_get", deep=2), K("ktree", 3, 3, KA + ",o_get", audit=1), K("ktree", 3, 3, KA + ",o_get", tbase=252), K("ktree", 5, 1, "get,o_get"), F("ktree", "fl,fle,fleby,get,o_get"), K("ktree", 3, 3, KA + ",o_get", tbase=251), K("ktree", 4, 3, KA + ",o_get"), K("ktree", 3, 3, KA + ",o_get"), K("ktree", 3, 2, KA + ",o_get", mode="full"), K("ktree", 8, 0, "get,clear,o_get", mode="shape")],
-    "thorough": [K("ktree", 2, 2, KA + ",o_get", quq=1, cs=1), K("ktree", 3, 2, KA + ",o_get", quq=1, tail2=2), K("ktree", 2, 2, KA + ",o_get", quq=1, tail2=1), K("ktree", 3, 2, KA + ",o_get", quq=2), K("ktree", 2, 2, KA + ",o_get", quq=2), K("ktree", 3, 2, KA + ",o_get", quq=1), K("ktree", 3, 2, KA + ",o_get", deep=2), K("ktree", 2, 2, KA + ",o_get", deep=3), K("ktree", 3, 1, KA + ",o_get", deep=2), K("ktree", 3, 3, KA + ",o_get", audit=1), K("ktree", 3, 3, KA + ",o_get", tbase=252), K("ktree", 5, 1, "get,o_get"), F("ktree", "fl,fle,fleby,get,o_get"), K("ktree", 4, 4, KA + ",o_get"), K("ktree", 5, 2, KA + ",o_get", cap_s=900), K("ktree", 3, 3, KA + ",o_get", mode="full"), K("ktree", 9, 1, "get,clear,o_get", mode="shape", cap_s=900)],
+    "quick": [SW("bigk", sys="ktree", label="bigk ktree<u32 keys>: 864 long histories on expiring trees of 127 ... 4000 entries, hints 0/8/9/128/256/1000: three insert waves through expired never-queried entries, re-insertion, every lookup, export"), K("ktree", 2, 2, KA + ",o_get", quq=1, cs=1), K("ktree", 3, 2, KA + ",o_get", quq=1, tail2=2), K("ktree", 2, 2, KA + ",o_get", quq=1, tail2=1), K("ktree", 2, 2, KA + ",o_get", quq=2), K("ktree", 3, 2, KA + ",o_get", quq=1), K("ktree", 2, 2, KA + ",o_get", deep=3), K("ktree", 3, 1, KA + ",o_get", deep=2), K("ktree", 3, 3, KA + ",o_get", audit=1), K("ktree", 3, 3, KA + ",o_get", tbase=252), K("ktree", 5, 1, "get,o_get"), F("ktree", "fl,fle,fleby,get,o_get"), K("ktree", 3, 3, KA + ",o_get", tbase=251), K("ktree", 4, 3, KA + ",o_get"), K("ktree", 3, 3, KA + ",o_get"), K("ktree", 3, 2, KA + ",o_get", mode="full"), K("ktree", 8, 0, "get,clear,o_get", mode="shape")],
+    "thorough": [SW("bigk", sys="ktree", label="bigk ktree<u32 keys>: 864 long histories on expiring trees of 127 ... 4000 entries, hints 0/8/9/128/256/1000: three insert waves through expired never-queried entries, re-insertion, every lookup, export"), K("ktree", 2, 2, KA + ",o_get", quq=1, cs=1), K("ktree", 3, 2, KA + ",o_get", quq=1, tail2=2), K("ktree", 2, 2, KA + ",o_get", quq=1, tail2=1), K("ktree", 3, 2, KA + ",o_get", quq=2), K("ktree", 2, 2, KA + ",o_get", quq=2), K("ktree", 3, 2, KA + ",o_get", quq=1), K("ktree", 3, 2, KA + ",o_get", deep=2), K("ktree", 2, 2, KA + ",o_get", deep=3), K("ktree", 3, 1, KA + ",o_get", deep=2), K("ktree", 3, 3, KA + ",o_get", audit=1), K("ktree", 3, 3, KA + ",o_get", tbase=252), K("ktree", 5, 1, "get,o_get"), F("ktree", "fl,fle,fleby,get,o_get"), K("ktree", 4, 4, KA + ",o_get"), K("ktree", 5, 2, KA + ",o_get", cap_s=900), K("ktree", 3, 3, KA + ",o_get", mode="full"), K("ktree", 9, 1, "get,clear,o_get", mode="shape", cap_s=900)],
 }
 SPECS["C07"] = {
-    "quick": [K("ktree", 8, 0, "fleby,clear,o_export", mode="shape"), K("ktree", 3, 3, KA + ",o_export", tbase=252), K("klist", 3, 3, KA + ",o_export", tbase=252), F("ktree", "fl,fle,fleby,get,o_export"), F("klist", "fl,fle,fleby,get,o_export"), K("ktree", 3, 3, KA + ",o_export", tbase=251), K("klist", 3, 3, KA + ",o_export", tbase=251), K("ktree", 4, 2, KA + ",o_export"), K("ktree", 3, 3, KA + ",o_export"), K("klist", 3, 3, KA + ",o_export"), K("ktree", 3, 2, KA + ",o_export", mode="full")],
-    "thorough": [K("ktree", 3, 3, KA + ",o_export", tbase=252), K("klist", 3, 3, KA + ",o_export", tbase=252), F("ktree", "fl,fle,fleby,get,o_export"), F("klist", "fl,fle,fleby,get,o_export"), K("ktree", 4, 4, KA + ",o_export", cap_s=1200), K("klist", 4, 4, KA + ",o_export"), K("ktree", 3, 3, KA + ",o_export", mode="full"), K("ktree", 8, 0, "fleby,clear,o_export", mode="shape")],
+    "quick": [SW("bigk", sys="klist", label="bigk klist<u32 keys>: the same 864 histories on the sorted-list twin"), SW("bigk", sys="ktree", label="bigk ktree<u32 keys>: 864 long histories on expiring trees of 127 ... 4000 entries, hints 0/8/9/128/256/1000: three insert waves through expired never-queried entries, re-insertion, every lookup, export"), K("ktree", 8, 0, "fleby,clear,o_export", mode="shape"), K("ktree", 3, 3, KA + ",o_export", tbase=252), K("klist", 3, 3, KA + ",o_export", tbase=252), F("ktree", "fl,fle,fleby,get,o_export"), F("klist", "fl,fle,fleby,get,o_export"), K("ktree", 3, 3, KA + ",o_export", tbase=251), K("klist", 3, 3, KA + ",o_export", tbase=251), K("ktree", 4, 2, KA + ",o_export"), K("ktree", 3, 3, KA + ",o_export"), K("klist", 3, 3, KA + ",o_export"), K("ktree", 3, 2, KA + ",o_export", mode="full")],
+    "thorough": [SW("bigk", sys="klist", label="bigk klist<u32 keys>: the same 864 histories on the sorted-list twin"), SW("bigk", sys="ktree", label="bigk ktree<u32 keys>: 864 long histories on expiring trees of 127 ... 4000 entries, hints 0/8/9/128/256/1000: three insert waves through expired never-queried entries, re-insertion, every lookup, export"), K("ktree", 3, 3, KA + ",o_export", tbase=252), K("klist", 3, 3, KA + ",o_export", tbase=252), F("ktree", "fl,fle,fleby,get,o_export"), F("klist", "fl,fle,fleby,get,o_export"), K("ktree", 4, 4, KA + ",o_export", cap_s=1200), K("klist", 4, 4, KA + ",o_export"), K("ktree", 3, 3, KA + ",o_export", mode="full"), K("ktree", 8, 0, "fleby,clear,o_export", mode="shape")],
 }
 SPECS["C19"] = {
-    "quick": [F("ktree", "fl,fle,fleby,get,o_cap"), F("klist", "fl,fle,fleby,get,o_cap"), K("ktree", 4, 2, KA + ",o_cap"), K("ktree", 3, 2, KA + ",o_cap"), K("klist", 3, 2, KA + ",o_cap"), K("ktree", 8, 0, "fleby,clear,o_cap", mode="shape"), SW("export-sizes", kmax=14, as_gb=6)],
-    "thorough": [SW("export-sizes", kmax=12, grow=70000, as_gb=8, label="expiring tree / list: growth steps above 65536 slots"), F("ktree", "fl,fle,fleby,get,o_cap"), F("klist", "fl,fle,fleby,get,o_cap"), K("ktree", 4, 3, KA + ",o_cap"), K("ktree", 9, 1, "fleby,o_cap", mode="shape", cap_s=900), SW("export-sizes", kmax=21, list_max=8192, as_gb=8)],
+    "quick": [SW("bigk", sys="ktree", label="bigk ktree<u32 keys>: 864 long histories on expiring trees of 127 ... 4000 entries, hints 0/8/9/128/256/1000: three insert waves through expired never-queried entries, re-insertion, every lookup, export"), F("ktree", "fl,fle,fleby,get,o_cap"), F("klist", "fl,fle,fleby,get,o_cap"), K("ktree", 4, 2, KA + ",o_cap"), K("ktree", 3, 2, KA + ",o_cap"), K("klist", 3, 2, KA + ",o_cap"), K("ktree", 8, 0, "fleby,clear,o_cap", mode="shape"), SW("export-sizes", kmax=14, as_gb=6)],
+    "thorough": [SW("bigk", sys="ktree", label="bigk ktree<u32 keys>: 864 long histories on expiring trees of 127 ... 4000 entries, hints 0/8/9/128/256/1000: three insert waves through expired never-queried entries, re-insertion, every lookup, export"), SW("export-sizes", kmax=12, grow=70000, as_gb=8, label="expiring tree / list: growth steps above 65536 slots"), F("ktree", "fl,fle,fleby,get,o_cap"), F("klist", "fl,fle,fleby,get,o_cap"), K("ktree", 4, 3, KA + ",o_cap"), K("ktree", 9, 1, "fleby,o_cap", mode="shape", cap_s=900), SW("export-sizes", kmax=21, list_max=8192, as_gb=8)],
 }
 SPECS["C20"] = {
     "quick": [K("ktree", 3, 2, KA + ",o_log", quq=1, tail2=2), K("ktree", 2, 2, KA + ",o_log", quq=2), K("klist", 2, 2, KA + ",o_log", quq=2), K("ktree", 2, 2, KA + ",o_log", deep=3), K("ktree", 3, 3, KA + ",o_log", audit=1), K("ktree", 3, 3, KA + ",o_log", tbase=252), K("klist", 3, 3, KA + ",o_log", tbase=252), K("ktree", 5, 1, "fleby,get,o_log"), F("ktree", "fl,fle,fleby,get,o_log"), F("klist", "fl,fle,fleby,get,o_log"), K("ktree", 3, 3, KA + ",o_log", tbase=251), K("klist", 3, 3, KA + ",o_log", tbase=251), K("ktree", 4, 3, KA + ",o_log"), K("ktree", 3, 3, KA + ",o_log"), K("klist", 3, 3, KA + ",o_log"), K("ktree", 3, 2, KA + ",o_log", mode="full")],
@@ -177,16 +177,16 @@ SPECS["C17"] = {
     "thorough": [M("maptree", 14, "del,clear,o_hstab", mode="shape", cap_s=1500), M("settree", 14, "del,clear,o_hstab", mode="shape", hint=9, cap_s=1500), M("maptree", 3, MA + ",o_hstab,o_handle", quq=2), M("settree", 3, MA + ",o_hstab,o_handle", quq=2), F("maptree", MA + ",o_hstab"), F("settree", MA + ",o_hstab", hint=9), M("maptree", 7, MA + ",o_hstab"), M("settree", 7, MA + ",o_hstab"), M("maptree", 12, "del,clear,o_hstab", mode="shape"), M("settree", 12, "del,clear,o_hstab", mode="shape", hint=9), M("maptree", 5, MAW + ",o_hstab", pay="heap", hint=1)],
 }
 SPECS["C02"] = {
-    "quick": [SW("bigtree", sys="settree", sizes="500,1023,1024,1025,3000,10000", label="bigtree settree<u32,u32>: 450+ long histories on trees of 500 ... 10000 (thorough 65537) entries, hints 0/1/8/9/1025: fill, thin out to 0/1/10/50/100 %, clear, refill with twice as many, drain"), SW("bigtree", sys="maptree", sizes="500,1023,1024,1025,3000,10000", label="bigtree maptree<u32,u32>: 450+ long histories on trees of 500 ... 10000 (thorough 65537) entries, hints 0/1/8/9/1025: fill, thin out to 0/1/10/50/100 %, clear, refill with twice as many, drain"), K("ktree", 5, 1, "get,o_rb"), F("maptree", MA + ",o_rb"), F("settree", MA + ",o_rb"), F("ktree", "fl,fle,fleby,get,o_rb"), K("ktree", 4, 2, KA + ",o_rb"), M("maptree", 6, MA + ",o_rb,histogram"), M("settree", 6, MA + ",o_rb,histogram"), K("ktree", 3, 3, KA + ",o_rb"), M("maptree", 10, "del,clear,o_rb,histogram", mode="shape"), M("settree", 10, "del,clear,o_rb,histogram", mode="shape"), K("ktree", 8, 0, "fleby,clear,o_rb", mode="shape")],
-    "thorough": [SW("bigtree", sys="settree", sizes="500,1023,1024,1025,3000,10000,65537", label="bigtree settree<u32,u32>: 450+ long histories on trees of 500 ... 10000 (thorough 65537) entries, hints 0/1/8/9/1025: fill, thin out to 0/1/10/50/100 %, clear, refill with twice as many, drain"), SW("bigtree", sys="maptree", sizes="500,1023,1024,1025,3000,10000,65537", label="bigtree maptree<u32,u32>: 450+ long histories on trees of 500 ... 10000 (thorough 65537) entries, hints 0/1/8/9/1025: fill, thin out to 0/1/10/50/100 %, clear, refill with twice as many, drain"), M("maptree", 14, "del,clear,o_rb,histogram", mode="shape", cap_s=1500), M("settree", 14, "del,clear,o_rb,histogram", mode="shape", hint=9, cap_s=1500), K("ktree", 5, 1, "get,o_rb"), F("maptree", MA + ",o_rb"), F("settree", MA + ",o_rb"), F("ktree", "fl,fle,fleby,get,o_rb"), M("maptree", 7, MA + ",o_rb,histogram"), M("settree", 7, MA + ",o_rb,histogram"), K("ktree", 4, 4, KA + ",o_rb"), K("ktree", 5, 2, KA + ",o_rb", cap_s=900),
+    "quick": [SW("bigk", sys="ktree", label="bigk ktree<u32 keys>: 864 long histories on expiring trees of 127 ... 4000 entries, hints 0/8/9/128/256/1000: three insert waves through expired never-queried entries, re-insertion, every lookup, export"), SW("bigtree", sys="settree", sizes="500,1023,1024,1025,3000,10000", label="bigtree settree<u32,u32>: 450+ long histories on trees of 500 ... 10000 (thorough 65537) entries, hints 0/1/8/9/1025: fill, thin out to 0/1/10/50/100 %, clear, refill with twice as many, drain"), SW("bigtree", sys="maptree", sizes="500,1023,1024,1025,3000,10000", label="bigtree maptree<u32,u32>: 450+ long histories on trees of 500 ... 10000 (thorough 65537) entries, hints 0/1/8/9/1025: fill, thin out to 0/1/10/50/100 %, clear, refill with twice as many, drain"), K("ktree", 5, 1, "get,o_rb"), F("maptree", MA + ",o_rb"), F("settree", MA + ",o_rb"), F("ktree", "fl,fle,fleby,get,o_rb"), K("ktree", 4, 2, KA + ",o_rb"), M("maptree", 6, MA + ",o_rb,histogram"), M("settree", 6, MA + ",o_rb,histogram"), K("ktree", 3, 3, KA + ",o_rb"), M("maptree", 10, "del,clear,o_rb,histogram", mode="shape"), M("settree", 10, "del,clear,o_rb,histogram", mode="shape"), K("ktree", 8, 0, "fleby,clear,o_rb", mode="shape")],
+    "thorough": [SW("bigk", sys="ktree", sizes="10000,30000", label="bigk ktree<u32 keys>: 10000 and 30000 entries"), SW("bigk", sys="ktree", label="bigk ktree<u32 keys>: 864 long histories on expiring trees of 127 ... 4000 entries, hints 0/8/9/128/256/1000: three insert waves through expired never-queried entries, re-insertion, every lookup, export"), SW("bigtree", sys="settree", sizes="500,1023,1024,1025,3000,10000,65537", label="bigtree settree<u32,u32>: 450+ long histories on trees of 500 ... 10000 (thorough 65537) entries, hints 0/1/8/9/1025: fill, thin out to 0/1/10/50/100 %, clear, refill with twice as many, drain"), SW("bigtree", sys="maptree", sizes="500,1023,1024,1025,3000,10000,65537", label="bigtree maptree<u32,u32>: 450+ long histories on trees of 500 ... 10000 (thorough 65537) entries, hints 0/1/8/9/1025: fill, thin out to 0/1/10/50/100 %, clear, refill with twice as many, drain"), M("maptree", 14, "del,clear,o_rb,histogram", mode="shape", cap_s=1500), M("settree", 14, "del,clear,o_rb,histogram", mode="shape", hint=9, cap_s=1500), K("ktree", 5, 1, "get,o_rb"), F("maptree", MA + ",o_rb"), F("settree", MA + ",o_rb"), F("ktree", "fl,fle,fleby,get,o_rb"), M("maptree", 7, MA + ",o_rb,histogram"), M("settree", 7, MA + ",o_rb,histogram"), K("ktree", 4, 4, KA + ",o_rb"), K("ktree", 5, 2, KA + ",o_rb", cap_s=900),
                  M("maptree", 12, "del,clear,o_rb", mode="shape"), M("settree", 12, "del,clear,o_rb", mode="shape", hint=9), K("ktree", 8, 1, "fle,fleby,clear,o_rb", mode="shape", cap_s=900)],
 }
 SPECS["C11"] = {
-    "quick": [SW("bigtree", sys="settree", sizes="500,1023,1024,1025,3000,10000", label="bigtree settree<u32,u32>: 450+ long histories on trees of 500 ... 10000 (thorough 65537) entries, hints 0/1/8/9/1025: fill, thin out to 0/1/10/50/100 %, clear, refill with twice as many, drain"), SW("bigtree", sys="maptree", sizes="500,1023,1024,1025,3000,10000", label="bigtree maptree<u32,u32>: 450+ long histories on trees of 500 ... 10000 (thorough 65537) entries, hints 0/1/8/9/1025: fill, thin out to 0/1/10/50/100 %, clear, refill with twice as many, drain"), M("maptree", 4, MA + ",o_arena", hint=1000), K("ktree", 3, 2, KA + ",o_arena", hint=1000), K("ktree", 5, 1, "get,o_arena"), F("maptree", MA + ",o_arena"), F("settree", MA + ",o_arena", hint=9), F("ktree", "fl,fle,fleby,get,o_arena"), F("maptree", MA + ",o_arena", hint=64, sizes="48,64,65,100"), K("ktree", 4, 2, KA + ",o_arena"), M("maptree", 6, MA + ",o_arena"), M("settree", 6, MA + ",o_arena"), K("ktree", 3, 3, KA + ",o_arena"),
+    "quick": [SW("bigk", sys="ktree", label="bigk ktree<u32 keys>: 864 long histories on expiring trees of 127 ... 4000 entries, hints 0/8/9/128/256/1000: three insert waves through expired never-queried entries, re-insertion, every lookup, export"), SW("bigtree", sys="settree", sizes="500,1023,1024,1025,3000,10000", label="bigtree settree<u32,u32>: 450+ long histories on trees of 500 ... 10000 (thorough 65537) entries, hints 0/1/8/9/1025: fill, thin out to 0/1/10/50/100 %, clear, refill with twice as many, drain"), SW("bigtree", sys="maptree", sizes="500,1023,1024,1025,3000,10000", label="bigtree maptree<u32,u32>: 450+ long histories on trees of 500 ... 10000 (thorough 65537) entries, hints 0/1/8/9/1025: fill, thin out to 0/1/10/50/100 %, clear, refill with twice as many, drain"), M("maptree", 4, MA + ",o_arena", hint=1000), K("ktree", 3, 2, KA + ",o_arena", hint=1000), K("ktree", 5, 1, "get,o_arena"), F("maptree", MA + ",o_arena"), F("settree", MA + ",o_arena", hint=9), F("ktree", "fl,fle,fleby,get,o_arena"), F("maptree", MA + ",o_arena", hint=64, sizes="48,64,65,100"), K("ktree", 4, 2, KA + ",o_arena"), M("maptree", 6, MA + ",o_arena"), M("settree", 6, MA + ",o_arena"), K("ktree", 3, 3, KA + ",o_arena"),
               M("maptree", 4, MA + ",o_arena", hint=0), M("settree", 4, MA + ",o_arena", hint=1), K("ktree", 3, 2, KA + ",o_arena", hint=0),
               M("maptree", 10, "del,clear,o_arena", mode="shape"), M("settree", 10, "del,clear,o_arena", mode="shape", hint=9), K("ktree", 8, 0, "fleby,clear,o_arena", mode="shape", hint=9),
               M("maptree", 4, MA + ",o_arena", hint=64), K("ktree", 3, 2, KA + ",o_arena", hint=64)],
-    "thorough": [SW("bigtree", sys="maptree", sizes="262145", label="bigtree maptree<u32,u32>: 262145 entries (tree height above 32)"), SW("bigtree", sys="settree", sizes="262145", label="bigtree settree<u32,u32>: 262145 entries"), SW("export-sizes", kmax=12, grow=70000, as_gb=8, label="expiring tree / list: growth steps above 65536 slots (70000 inserts, clear, 140010 inserts; hint 70001 then 140003 inserts)"), SW("bigtree", sys="settree", sizes="500,1023,1024,1025,3000,10000,65537", label="bigtree settree<u32,u32>: 450+ long histories on trees of 500 ... 10000 (thorough 65537) entries, hints 0/1/8/9/1025: fill, thin out to 0/1/10/50/100 %, clear, refill with twice as many, drain"), SW("bigtree", sys="maptree", sizes="500,1023,1024,1025,3000,10000,65537", label="bigtree maptree<u32,u32>: 450+ long histories on trees of 500 ... 10000 (thorough 65537) entries, hints 0/1/8/9/1025: fill, thin out to 0/1/10/50/100 %, clear, refill with twice as many, drain"), M("maptree", 4, MA + ",o_arena", hint=1000), K("ktree", 3, 2, KA + ",o_arena", hint=1000), M("maptree", 14, "del,clear,o_arena", mode="shape", cap_s=1500), M("settree", 14, "del,clear,o_arena", mode="shape", hint=9, cap_s=1500), K("ktree", 5, 1, "get,o_arena"), F("maptree", MA + ",o_arena"), F("settree", MA + ",o_arena", hint=9), F("ktree", "fl,fle,fleby,get,o_arena"), F("maptree", MA + ",o_arena", hint=64, sizes="48,64,65,100"), M("maptree", 7, MA + ",o_arena"), M("settree", 7, MA + ",o_arena"), K("ktree", 4, 4, KA + ",o_arena"),
+    "thorough": [SW("bigk", sys="ktree", sizes="10000,30000", label="bigk ktree<u32 keys>: 10000 and 30000 entries"), SW("bigk", sys="ktree", label="bigk ktree<u32 keys>: 864 long histories on expiring trees of 127 ... 4000 entries, hints 0/8/9/128/256/1000: three insert waves through expired never-queried entries, re-insertion, every lookup, export"), SW("bigtree", sys="maptree", sizes="262145", label="bigtree maptree<u32,u32>: 262145 entries (tree height above 32)"), SW("bigtree", sys="settree", sizes="262145", label="bigtree settree<u32,u32>: 262145 entries"), SW("export-sizes", kmax=12, grow=70000, as_gb=8, label="expiring tree / list: growth steps above 65536 slots (70000 inserts, clear, 140010 inserts; hint 70001 then 140003 inserts)"), SW("bigtree", sys="settree", sizes="500,1023,1024,1025,3000,10000,65537", label="bigtree settree<u32,u32>: 450+ long histories on trees of 500 ... 10000 (thorough 65537) entries, hints 0/1/8/9/1025: fill, thin out to 0/1/10/50/100 %, clear, refill with twice as many, drain"), SW("bigtree", sys="maptree", sizes="500,1023,1024,1025,3000,10000,65537", label="bigtree maptree<u32,u32>: 450+ long histories on trees of 500 ... 10000 (thorough 65537) entries, hints 0/1/8/9/1025: fill, thin out to 0/1/10/50/100 %, clear, refill with twice as many, drain"), M("maptree", 4, MA + ",o_arena", hint=1000), K("ktree", 3, 2, KA + ",o_arena", hint=1000), M("maptree", 14, "del,clear,o_arena", mode="shape", cap_s=1500), M("settree", 14, "del,clear,o_arena", mode="shape", hint=9, cap_s=1500), K("ktree", 5, 1, "get,o_arena"), F("maptree", MA + ",o_arena"), F("settree", MA + ",o_arena", hint=9), F("ktree", "fl,fle,fleby,get,o_arena"), F("maptree", MA + ",o_arena", hint=64, sizes="48,64,65,100"), M("maptree", 7, MA + ",o_arena"), M("settree", 7, MA + ",o_arena"), K("ktree", 4, 4, KA + ",o_arena"),
                  M("maptree", 6, MA + ",o_arena", hint=0), M("settree", 6, MA + ",o_arena", hint=1), K("ktree", 4, 3, KA + ",o_arena", hint=1),
                  M("maptree", 12, "del,clear,o_arena", mode="shape"), M("maptree", 12, "del,clear,o_arena", mode="shape", hint=9), M("settree", 12, "del,clear,o_arena", mode="shape", hint=9),
                  K("ktree", 9, 1, "fleby,clear,o_arena", mode="shape", hint=9, cap_s=900), M("settree", 6, MA + ",o_arena", hint=64), K("ktree", 4, 3, KA + ",o_arena", hint=64)],
@@ -202,8 +202,8 @@ SPECS["C12"] = {
 LISTS_M = MAW + ",o_ref,o_handle,o_pos,o_rb,o_neigh"
 LISTS_K = KA + ",o_pred,o_get,o_export,o_log,o_rb"
 SPECS["C13"] = {
-    "quick": [F("maplist", LISTS_M, sizes="9,17,33,65", sparse=1), F("setlist", LISTS_M, sizes="9,17,33,65", sparse=1), M("maplist", 3, LISTS_M, quq=1, cs=2), M("setlist", 3, LISTS_M, quq=1, cs=2), K("klist", 2, 2, LISTS_K, quq=1, cs=1), K("klist", 3, 2, LISTS_K, quq=1, tail2=2), M("maplist", 3, LISTS_M, quq=1, tail2=2), M("setlist", 3, LISTS_M, quq=1, tail2=2), K("klist", 2, 2, LISTS_K, quq=1, tail2=1), M("maplist", 3, LISTS_M, quq=1, tail2=1), M("setlist", 3, LISTS_M, quq=1, tail2=1), M("maplist", 3, LISTS_M, quq=2), M("setlist", 3, LISTS_M, quq=2), K("klist", 2, 2, LISTS_K, quq=2), K("klist", 3, 2, LISTS_K, quq=1), M("maplist", 3, LISTS_M, deep=3), M("setlist", 3, LISTS_M, deep=3), K("klist", 2, 2, LISTS_K, deep=3), K("klist", 3, 3, LISTS_K, audit=1), M("maplist", 5, LISTS_M, audit=1), M("setlist", 5, LISTS_M, audit=1), M("maplist", 5, LISTS_M, pay="track"), M("setlist", 5, LISTS_M, pay="track"), K("klist", 3, 3, LISTS_K, tbase=252), K("klist", 4, 3, LISTS_K + ",o_twin", tbase=251), F("maplist", LISTS_M, sizes="9,17,33,65"), F("setlist", LISTS_M, sizes="9,17,33,65"), F("klist", "fl,fle,fleby,get,o_pred,o_get,o_export,o_log,o_rb"), K("klist", 4, 3, LISTS_K, tbase=251), M("maplist", 6, LISTS_M), M("setlist", 6, LISTS_M), M("maplist", 5, LISTS_M, pay="heap", hint=0), K("klist", 4, 4, LISTS_K), K("klist", 3, 3, LISTS_K, hint=0)],
-    "thorough": [F("maplist", LISTS_M, sizes="9,17,33,65", sparse=1), F("setlist", LISTS_M, sizes="9,17,33,65", sparse=1), M("maplist", 3, LISTS_M, quq=1, cs=2), M("setlist", 3, LISTS_M, quq=1, cs=2), K("klist", 2, 2, LISTS_K, quq=1, cs=1), K("klist", 3, 2, LISTS_K, quq=1, tail2=2), M("maplist", 4, LISTS_M, quq=1, tail2=2), M("setlist", 4, LISTS_M, quq=1, tail2=2), K("klist", 2, 2, LISTS_K, quq=1, tail2=1), M("maplist", 3, LISTS_M, quq=1, tail2=1), M("setlist", 3, LISTS_M, quq=1, tail2=1), M("maplist", 4, LISTS_M, quq=2), M("setlist", 4, LISTS_M, quq=2), K("klist", 3, 2, LISTS_K, quq=2), M("maplist", 3, LISTS_M, quq=2), M("setlist", 3, LISTS_M, quq=2), K("klist", 2, 2, LISTS_K, quq=2), K("klist", 3, 2, LISTS_K, quq=1), M("maplist", 3, LISTS_M, deep=3), M("setlist", 3, LISTS_M, deep=3), K("klist", 2, 2, LISTS_K, deep=3), K("klist", 3, 3, LISTS_K, audit=1), M("maplist", 5, LISTS_M, audit=1), M("setlist", 5, LISTS_M, audit=1), M("maplist", 5, LISTS_M, pay="track"), M("setlist", 5, LISTS_M, pay="track"), K("klist", 3, 3, LISTS_K, tbase=252), K("klist", 4, 3, LISTS_K + ",o_twin", tbase=251), F("maplist", LISTS_M, sizes="9,17,33,65"), F("setlist", LISTS_M, sizes="9,17,33,65"), F("klist", "fl,fle,fleby,get,o_pred,o_get,o_export,o_log,o_rb"), M("maplist", 8, LISTS_M), M("setlist", 8, LISTS_M), M("setlist", 6, LISTS_M, pay="heap", hint=0), K("klist", 5, 4, LISTS_K, cap_s=900), K("klist", 4, 5, LISTS_K)],
+    "quick": [SW("bigk", sys="klist", label="bigk klist<u32 keys>: the same 864 histories on the sorted-list twin"), F("maplist", LISTS_M, sizes="9,17,33,65", sparse=1), F("setlist", LISTS_M, sizes="9,17,33,65", sparse=1), M("maplist", 3, LISTS_M, quq=1, cs=2), M("setlist", 3, LISTS_M, quq=1, cs=2), K("klist", 2, 2, LISTS_K, quq=1, cs=1), K("klist", 3, 2, LISTS_K, quq=1, tail2=2), M("maplist", 3, LISTS_M, quq=1, tail2=2), M("setlist", 3, LISTS_M, quq=1, tail2=2), K("klist", 2, 2, LISTS_K, quq=1, tail2=1), M("maplist", 3, LISTS_M, quq=1, tail2=1), M("setlist", 3, LISTS_M, quq=1, tail2=1), M("maplist", 3, LISTS_M, quq=2), M("setlist", 3, LISTS_M, quq=2), K("klist", 2, 2, LISTS_K, quq=2), K("klist", 3, 2, LISTS_K, quq=1), M("maplist", 3, LISTS_M, deep=3), M("setlist", 3, LISTS_M, deep=3), K("klist", 2, 2, LISTS_K, deep=3), K("klist", 3, 3, LISTS_K, audit=1), M("maplist", 5, LISTS_M, audit=1), M("setlist", 5, LISTS_M, audit=1), M("maplist", 5, LISTS_M, pay="track"), M("setlist", 5, LISTS_M, pay="track"), K("klist", 3, 3, LISTS_K, tbase=252), K("klist", 4, 3, LISTS_K + ",o_twin", tbase=251), F("maplist", LISTS_M, sizes="9,17,33,65"), F("setlist", LISTS_M, sizes="9,17,33,65"), F("klist", "fl,fle,fleby,get,o_pred,o_get,o_export,o_log,o_rb"), K("klist", 4, 3, LISTS_K, tbase=251), M("maplist", 6, LISTS_M), M("setlist", 6, LISTS_M), M("maplist", 5, LISTS_M, pay="heap", hint=0), K("klist", 4, 4, LISTS_K), K("klist", 3, 3, LISTS_K, hint=0)],
+    "thorough": [SW("bigk", sys="klist", label="bigk klist<u32 keys>: the same 864 histories on the sorted-list twin"), F("maplist", LISTS_M, sizes="9,17,33,65", sparse=1), F("setlist", LISTS_M, sizes="9,17,33,65", sparse=1), M("maplist", 3, LISTS_M, quq=1, cs=2), M("setlist", 3, LISTS_M, quq=1, cs=2), K("klist", 2, 2, LISTS_K, quq=1, cs=1), K("klist", 3, 2, LISTS_K, quq=1, tail2=2), M("maplist", 4, LISTS_M, quq=1, tail2=2), M("setlist", 4, LISTS_M, quq=1, tail2=2), K("klist", 2, 2, LISTS_K, quq=1, tail2=1), M("maplist", 3, LISTS_M, quq=1, tail2=1), M("setlist", 3, LISTS_M, quq=1, tail2=1), M("maplist", 4, LISTS_M, quq=2), M("setlist", 4, LISTS_M, quq=2), K("klist", 3, 2, LISTS_K, quq=2), M("maplist", 3, LISTS_M, quq=2), M("setlist", 3, LISTS_M, quq=2), K("klist", 2, 2, LISTS_K, quq=2), K("klist", 3, 2, LISTS_K, quq=1), M("maplist", 3, LISTS_M, deep=3), M("setlist", 3, LISTS_M, deep=3), K("klist", 2, 2, LISTS_K, deep=3), K("klist", 3, 3, LISTS_K, audit=1), M("maplist", 5, LISTS_M, audit=1), M("setlist", 5, LISTS_M, audit=1), M("maplist", 5, LISTS_M, pay="track"), M("setlist", 5, LISTS_M, pay="track"), K("klist", 3, 3, LISTS_K, tbase=252), K("klist", 4, 3, LISTS_K + ",o_twin", tbase=251), F("maplist", LISTS_M, sizes="9,17,33,65"), F("setlist", LISTS_M, sizes="9,17,33,65"), F("klist", "fl,fle,fleby,get,o_pred,o_get,o_export,o_log,o_rb"), M("maplist", 8, LISTS_M), M("setlist", 8, LISTS_M), M("setlist", 6, LISTS_M, pay="heap", hint=0), K("klist", 5, 4, LISTS_K, cap_s=900), K("klist", 4, 5, LISTS_K)],
 }
 
 # --- segment tree --------------------------------------------------------------
@@ -239,13 +239,13 @@ SPECS["C18"] = {
 ALL_M = MAW + ",o_ref,o_handle,o_neigh,o_hstab"
 ALL_K = KA + ",o_pred,o_get,o_export"
 SPECS["C10"] = {
-    "quick": [SW("bigtree", sys="settree", sizes="500,1023,1024,1025,3000,10000", label="bigtree settree<u32,u32>: 450+ long histories on trees of 500 ... 10000 (thorough 65537) entries, hints 0/1/8/9/1025: fill, thin out to 0/1/10/50/100 %, clear, refill with twice as many, drain"), SW("bigtree", sys="maptree", sizes="500,1023,1024,1025,3000,10000", label="bigtree maptree<u32,u32>: 450+ long histories on trees of 500 ... 10000 (thorough 65537) entries, hints 0/1/8/9/1025: fill, thin out to 0/1/10/50/100 %, clear, refill with twice as many, drain"), F("maptree", ALL_M, crash=1, sparse=1), F("settree", ALL_M, crash=1, sparse=1), M("maptree", 3, ALL_M, crash=1, hint=1000), M("settree", 3, ALL_M, crash=1, hint=1000), K("ktree", 3, 2, ALL_K, crash=1, hint=1000), M("maptree", 3, ALL_M, crash=1, quq=2), M("settree", 3, ALL_M, crash=1, quq=2), K("ktree", 2, 2, ALL_K, crash=1, quq=2), M("maptree", 4, ALL_M, crash=1, pay="track"), M("settree", 4, ALL_M, crash=1, pay="track"), FS(0, 31, "o_query", crash=1), FS(-1000, 3095, "o_query", crash=1), K("ktree", 3, 3, ALL_K, crash=1, tbase=252), K("klist", 3, 3, ALL_K, crash=1, tbase=252), F("maptree", ALL_M, crash=1), F("settree", ALL_M, crash=1), F("ktree", "fl,fle,fleby,get,o_pred,o_get,o_export", crash=1), K("ktree", 3, 3, ALL_K, crash=1, tbase=251), K("klist", 3, 3, ALL_K, crash=1, tbase=251), K("ktree", 4, 2, ALL_K, crash=1), M("maptree", 5, ALL_M, crash=1), M("settree", 5, ALL_M, crash=1), M("maplist", 5, ALL_M, crash=1), M("setlist", 5, ALL_M, crash=1),
+    "quick": [SW("bigk", sys="klist", label="bigk klist<u32 keys>: the same 864 histories on the sorted-list twin"), SW("bigk", sys="ktree", label="bigk ktree<u32 keys>: 864 long histories on expiring trees of 127 ... 4000 entries, hints 0/8/9/128/256/1000: three insert waves through expired never-queried entries, re-insertion, every lookup, export"), SW("bigtree", sys="settree", sizes="500,1023,1024,1025,3000,10000", label="bigtree settree<u32,u32>: 450+ long histories on trees of 500 ... 10000 (thorough 65537) entries, hints 0/1/8/9/1025: fill, thin out to 0/1/10/50/100 %, clear, refill with twice as many, drain"), SW("bigtree", sys="maptree", sizes="500,1023,1024,1025,3000,10000", label="bigtree maptree<u32,u32>: 450+ long histories on trees of 500 ... 10000 (thorough 65537) entries, hints 0/1/8/9/1025: fill, thin out to 0/1/10/50/100 %, clear, refill with twice as many, drain"), F("maptree", ALL_M, crash=1, sparse=1), F("settree", ALL_M, crash=1, sparse=1), M("maptree", 3, ALL_M, crash=1, hint=1000), M("settree", 3, ALL_M, crash=1, hint=1000), K("ktree", 3, 2, ALL_K, crash=1, hint=1000), M("maptree", 3, ALL_M, crash=1, quq=2), M("settree", 3, ALL_M, crash=1, quq=2), K("ktree", 2, 2, ALL_K, crash=1, quq=2), M("maptree", 4, ALL_M, crash=1, pay="track"), M("settree", 4, ALL_M, crash=1, pay="track"), FS(0, 31, "o_query", crash=1), FS(-1000, 3095, "o_query", crash=1), K("ktree", 3, 3, ALL_K, crash=1, tbase=252), K("klist", 3, 3, ALL_K, crash=1, tbase=252), F("maptree", ALL_M, crash=1), F("settree", ALL_M, crash=1), F("ktree", "fl,fle,fleby,get,o_pred,o_get,o_export", crash=1), K("ktree", 3, 3, ALL_K, crash=1, tbase=251), K("klist", 3, 3, ALL_K, crash=1, tbase=251), K("ktree", 4, 2, ALL_K, crash=1), M("maptree", 5, ALL_M, crash=1), M("settree", 5, ALL_M, crash=1), M("maplist", 5, ALL_M, crash=1), M("setlist", 5, ALL_M, crash=1),
               M("maptree", 4, ALL_M, crash=1, hint=0, pay="heap"), M("settree", 4, ALL_M, crash=1, hint=1, pay="bare"), M("maptree", 10, "del,delh,clear,o_handle", mode="shape", crash=1, hint=9), M("settree", 10, "del,delh,clear,o_neigh", mode="shape", crash=1, hint=9), M("settree", 3, ALL_M, crash=1, hint=64),
               K("ktree", 3, 3, ALL_K, crash=1), K("klist", 3, 3, ALL_K, crash=1), K("ktree", 3, 2, ALL_K, crash=1, hint=0), K("ktree", 3, 2, ALL_K, crash=1, hint=64), K("ktree", 8, 0, "fleby,get,clear,o_export", mode="shape", crash=1, hint=9),
               S(0, 16, SA + ",o_query", crash=1), S(0, 31, SA + ",o_query", crash=1), S(-7, 92, SA + ",o_query", crash=1), S(-(1 << 31), (1 << 31) - 1, SA + ",o_query", crash=1),
               SW("layout", lmax=600, all_coords=600, label="layout sweep (constructor and edge coordinates, process outcome only)"), SW("dpairs", lo=0, hi=128, label="all insert x query range pairs on [0,128] (process outcome)"),
               SW("niche", type="key", label="KeyExpTree::new with a key type that has no all-zero value"), SW("niche", type="val", label="KeyExpTree::new with a value type that has no all-zero value"), SW("niche", type="list", label="KeyExpList with the same key type")],
-    "thorough": [SW("bigtree", sys="maptree", sizes="262145", label="bigtree maptree<u32,u32>: 262145 entries"), SW("export-sizes", kmax=12, grow=70000, as_gb=8, label="expiring tree / list: growth steps above 65536 slots"), SW("bigtree", sys="settree", sizes="500,1023,1024,1025,3000,10000,65537", label="bigtree settree<u32,u32>: 450+ long histories on trees of 500 ... 10000 (thorough 65537) entries, hints 0/1/8/9/1025: fill, thin out to 0/1/10/50/100 %, clear, refill with twice as many, drain"), SW("bigtree", sys="maptree", sizes="500,1023,1024,1025,3000,10000,65537", label="bigtree maptree<u32,u32>: 450+ long histories on trees of 500 ... 10000 (thorough 65537) entries, hints 0/1/8/9/1025: fill, thin out to 0/1/10/50/100 %, clear, refill with twice as many, drain"), F("maptree", ALL_M, crash=1, sparse=1), F("settree", ALL_M, crash=1, sparse=1), M("maptree", 3, ALL_M, crash=1, hint=1000), M("settree", 3, ALL_M, crash=1, hint=1000), K("ktree", 3, 2, ALL_K, crash=1, hint=1000), M("maptree", 14, "del,delh,clear,o_handle", mode="shape", crash=1, cap_s=1500), M("settree", 14, "del,delh,clear,o_neigh", mode="shape", crash=1, hint=9, cap_s=1500), M("maptree", 3, ALL_M, crash=1, quq=2), M("settree", 3, ALL_M, crash=1, quq=2), K("ktree", 2, 2, ALL_K, crash=1, quq=2), M("maptree", 4, ALL_M, crash=1, pay="track"), M("settree", 4, ALL_M, crash=1, pay="track"), FS(0, 31, "o_query", crash=1), FS(-1000, 3095, "o_query", crash=1), K("ktree", 3, 3, ALL_K, crash=1, tbase=252), K("klist", 3, 3, ALL_K, crash=1, tbase=252), F("maptree", ALL_M, crash=1), F("settree", ALL_M, crash=1), F("ktree", "fl,fle,fleby,get,o_pred,o_get,o_export", crash=1), M("maptree", 7, MA + ",o_ref,o_handle,o_hstab", crash=1), M("settree", 7, MA + ",o_ref,o_handle,o_neigh,o_hstab", crash=1), M("maplist", 7, ALL_M, crash=1), M("setlist", 7, ALL_M, crash=1),
+    "thorough": [SW("bigk", sys="klist", label="bigk klist<u32 keys>: the same 864 histories on the sorted-list twin"), SW("bigk", sys="ktree", label="bigk ktree<u32 keys>: 864 long histories on expiring trees of 127 ... 4000 entries, hints 0/8/9/128/256/1000: three insert waves through expired never-queried entries, re-insertion, every lookup, export"), SW("bigtree", sys="maptree", sizes="262145", label="bigtree maptree<u32,u32>: 262145 entries"), SW("export-sizes", kmax=12, grow=70000, as_gb=8, label="expiring tree / list: growth steps above 65536 slots"), SW("bigtree", sys="settree", sizes="500,1023,1024,1025,3000,10000,65537", label="bigtree settree<u32,u32>: 450+ long histories on trees of 500 ... 10000 (thorough 65537) entries, hints 0/1/8/9/1025: fill, thin out to 0/1/10/50/100 %, clear, refill with twice as many, drain"), SW("bigtree", sys="maptree", sizes="500,1023,1024,1025,3000,10000,65537", label="bigtree maptree<u32,u32>: 450+ long histories on trees of 500 ... 10000 (thorough 65537) entries, hints 0/1/8/9/1025: fill, thin out to 0/1/10/50/100 %, clear, refill with twice as many, drain"), F("maptree", ALL_M, crash=1, sparse=1), F("settree", ALL_M, crash=1, sparse=1), M("maptree", 3, ALL_M, crash=1, hint=1000), M("settree", 3, ALL_M, crash=1, hint=1000), K("ktree", 3, 2, ALL_K, crash=1, hint=1000), M("maptree", 14, "del,delh,clear,o_handle", mode="shape", crash=1, cap_s=1500), M("settree", 14, "del,delh,clear,o_neigh", mode="shape", crash=1, hint=9, cap_s=1500), M("maptree", 3, ALL_M, crash=1, quq=2), M("settree", 3, ALL_M, crash=1, quq=2), K("ktree", 2, 2, ALL_K, crash=1, quq=2), M("maptree", 4, ALL_M, crash=1, pay="track"), M("settree", 4, ALL_M, crash=1, pay="track"), FS(0, 31, "o_query", crash=1), FS(-1000, 3095, "o_query", crash=1), K("ktree", 3, 3, ALL_K, crash=1, tbase=252), K("klist", 3, 3, ALL_K, crash=1, tbase=252), F("maptree", ALL_M, crash=1), F("settree", ALL_M, crash=1), F("ktree", "fl,fle,fleby,get,o_pred,o_get,o_export", crash=1), M("maptree", 7, MA + ",o_ref,o_handle,o_hstab", crash=1), M("settree", 7, MA + ",o_ref,o_handle,o_neigh,o_hstab", crash=1), M("maplist", 7, ALL_M, crash=1), M("setlist", 7, ALL_M, crash=1),
                  M("maptree", 5, ALL_M, crash=1, hint=0, pay="heap"), M("settree", 6, ALL_M, crash=1, hint=1, pay="bare"), M("maptree", 12, "del,delh,clear,o_handle", mode="shape", crash=1, hint=9), M("settree", 12, "del,delh,clear,o_neigh", mode="shape", crash=1, hint=9), M("settree", 5, ALL_M, crash=1, hint=64),
                  K("ktree", 4, 4, ALL_K, crash=1, cap_s=1200), K("klist", 4, 4, ALL_K, crash=1), K("ktree", 4, 3, ALL_K, crash=1, hint=0), K("ktree", 3, 3, ALL_K, crash=1, mode="full"), K("ktree", 9, 1, "fleby,get,clear,o_export", mode="shape", crash=1, hint=9, cap_s=900),
                  ] + [S(lo, hi, SA + ",o_query", crash=1) for (lo, hi) in DOMAINS_T] + [S(0, (1 << 32) - 1, SA + ",o_query", crash=1, coord="u32"), S(-(1 << 40), (1 << 40) + 5, SA + ",o_query", crash=1, coord="i64"),
